@@ -102,7 +102,8 @@ NOT_APPLICABLE = {
 }
 # properties planned but not yet registered are listed as not applicable until their check exists
 PENDING = {
-    "C18": "check under construction in this round (kernel-level obligations per DESIGN.md §5); not claimed until it discharges",
+    "C18": "the Option reader against the real StorageResolver (free / undefined / beyond-table reference) did not terminate in CBMC "
+           "(15 min each) once the vacuous design-round probe was corrected; derived readers need Dictionary (DESIGN §5)",
 }
 NOT_APPLICABLE.update(PENDING)
 
